@@ -196,7 +196,7 @@ HEADERS = {
 BACKENDS = [
     ["-c", "-fnames", "-unique-names"],
     ["-python-native"],
-    ["-python", "-fptrs"],
+    ["-python", "-fnames"],
     ["-c", "-python-native", "-fnames", "-string", "-refcount", "-assert", "-promiscuous"],
     ["-python-native", "-nomangle", "-true-names"],
     [],
@@ -205,6 +205,9 @@ BACKENDS = [
 
 def _materialize(ctx, src, d):
     """source spec -> (file bytes, idb.Database or None, minor).  Everything needed is inside `src`."""
+    if "file" in src:          # literal file content (latin-1) - used by finding witnesses, independent of generators
+        data = src["file"]["latin1"].encode("latin-1")
+        return data, None, src["file"].get("minor", 3)
     if "syn" in src:
         s = src["syn"]
         db = idbgen.generate(s["seed"], **s["params"])
@@ -413,6 +416,8 @@ def string_features(db):
 # ---------------------------------------------------------------------------------------------------
 
 def _src_label(src):
+    if "file" in src:
+        return "file:" + src["file"].get("label", "literal")
     if "syn" in src:
         p = src["syn"]["params"]
         return "syn:minor=%s:strings=%s:flags=%s" % (p.get("minor", 3), p.get("strings", "mixed"), p.get("flags", "random"))
@@ -438,6 +443,7 @@ def case_roundtrip(ctx, case, res):
     except idb.FormatError as ex:
         res.inconclusive = "reference reader rejects the file: %s" % ex
         return
+    minor = pdb.minor
     if idb.serialize(pdb, minor=minor) != x or (db is not None and pdb != idb.with_minor_defaults(db, minor)):
         res.inconclusive = "reference writer does not reproduce the file"
         return
@@ -511,12 +517,15 @@ def case_roundtrip(ctx, case, res):
     res.sample = {"source": case["src"], "bytes": len(x), "head": x[:160].decode("latin-1")}
 
 
+PROBE_ALARM = 4      # seconds one load may take inside the harness (normally ~1 ms); longer = "hang", not judged
+
+
 def _drive(script, d, timeout=300, symbolize=False):
     exe = ifacegen.idbdrive_path()
     sp = os.path.join(d, "script")
     open(sp, "w").write(script)
     env = None if symbolize else {"ASAN_OPTIONS": core.SAN_ENV["ASAN_OPTIONS"] + ":symbolize=0"}
-    return core.run([exe, sp], timeout=timeout, env=env)
+    return core.run([exe, "--alarm", str(PROBE_ALARM), sp], timeout=timeout, env=env)
 
 
 def _probe_lines(out):
@@ -537,12 +546,20 @@ def _probe_lines(out):
     return res, (last if last is not None and last not in res else None)
 
 
-def _run_probes(d, lines):
+def _run_probes(d, lines, max_hangs=3):
     """run probe/prefixes commands; when the process dies inside a probe, record it as DIED and carry on with the
-    remaining ones in a new process.  lines: list of (label-list, command-line-builder(labels))."""
+    remaining ones in a new process.  lines: list of (label-list, command-line-builder(labels)).
+    After max_hangs watchdog kills the remaining probes are given up (recorded as SKIPPED): a hang costs seconds
+    and C12 does not judge it."""
     results = {}
     pending = list(lines)
+    hangs = 0
     for _ in range(400):
+        if hangs >= max_hangs:
+            for labels, build in pending:
+                for l in labels:
+                    results.setdefault(l, ("SKIPPED", None))
+            break
         script = []
         for labels, build in pending:
             todo = [l for l in labels if l not in results]
@@ -559,7 +576,9 @@ def _run_probes(d, lines):
             continue
         if culprit is None:
             raise core.HarnessError("idbdrive failed outside a probe: rc=%s %s" % (r.rc, r.err[-600:]))
-        results[culprit] = ("HANG" if (r.timed_out or r.sig == 14) else "DIED", None)
+        hung = r.timed_out or r.sig == 14 or r.rc == -14
+        hangs += 1 if hung else 0
+        results[culprit] = ("HANG" if hung else "DIED", None)
     return results
 
 
@@ -632,7 +651,11 @@ def case_prefix(ctx, case, res):
                 res.count("further_crashing_prefixes")
             continue
         if flag == "HANG":
-            res.count("prefix_hang_unconfirmed")
+            res.count("prefix_hang_unjudged")
+            continue
+        if flag == "SKIPPED":
+            res.count("prefixes_skipped_after_hangs")
+            res.count("prefixes_checked", -1)
             continue
         if flag == 1 and h == h0:
             res.features.add("prefix:rejected-clean" + (":ws-only-lost" if ws_only else ""))
@@ -712,8 +735,8 @@ def case_header(ctx, case, res):
     for v in case["variants"]:
         flag, h = pr.get(v, (None, None))
         res.count("header_variants_checked")
-        if flag in ("DIED", "HANG", "THREW"):
-            if flag != "HANG":
+        if flag in ("DIED", "HANG", "THREW", "SKIPPED"):
+            if flag in ("DIED", "THREW"):
                 _confirm_crash(ctx, case, res, d, files[v], v, "header-variant")
             continue
         if v in ("ident-match", "ident-unchecked"):
